@@ -1056,7 +1056,7 @@ impl Engine for CacheEngine {
         } else {
             "at least two threads were inside put/get at the same schedule point, or on-disk damage was applied to the directory"
         };
-        format!("Each run: 1-3 keys with a virtual xorb each, 1-4 phases of 1-4 simulated threads issuing seeded put/get (overlapping, nested, identical ranges; thundering herds; now and then a put with inconsistent arguments built from the true content — trailing bytes, range wider or narrower than the offsets, empty range, data one byte short — which may be refused or stored while every later hit must still be a true slice) and racing file deletions against the real DiskCache under a seeded one-thread-at-a-time schedule (4 strategies) with capacities from 'one item' to 'everything fits'; between phases the cache is closed, seeded damage is applied (bit-flip bursts, truncation, extension, deletion, junk files/dirs at every level, six kinds of renames) and the directory is re-opened. Non-trivial: {nt}. Distinct: hash of per-phase (schedule points, thread switches), hit and put counts.")
+        format!("Each run: 1-3 keys with a virtual xorb each, 1-4 phases of 1-4 simulated threads issuing seeded put/get (overlapping, nested, identical ranges; thundering herds; now and then a put with inconsistent arguments built from the true content — trailing bytes, range wider or narrower than the offsets, empty range, data one byte short — which may be refused or stored while every later hit must still be a true slice) and racing file deletions against the real DiskCache under a seeded one-thread-at-a-time schedule (4 strategies) with capacities from 'one item' to 'everything fits'; between phases the cache is closed, seeded damage is applied (bit-flip bursts, truncation, extension, deletion, junk files/dirs at every level, eight kinds of renames and rewrites — among them a narrower range that starts later and a header with two offsets swapped under a name whose length and checksum match) or plain stray files are left beside the cache directories (not damage: the accounting clauses stay in force) and the directory is re-opened. Non-trivial: {nt}. Distinct: hash of per-phase (schedule points, thread switches), hit and put counts.")
     }
     fn real_vs_stub(&self) -> Value {
         json!({"real": ["chunk_cache::DiskCache (initialize/get/put/eviction/self-healing)", "file_utils::SafeFileCreator", "the file system (tmpfs)"], "simulated": ["thread scheduling at lock/file-system-effect granularity (H4 points)", "eviction victim draw", "on-disk damage while closed", "racing deletions"]})
